@@ -1,11 +1,71 @@
-(* C10 — memory-mapped save/load.  Property theorems only. *)
+(* C10 — memory-mapped save/load is a faithful, shared, thread-safe round trip.  Property theorems only.
+   What is runtime — mmap coherence between mappings and processes, real thread preemption, bytes of a file read
+   with another dtype — is not modelled (harness/c10.py exercises it). *)
 From Coq Require Import ZArith List String Bool Permutation.
 Import ListNotations.
-From TD Require Import Model.C10_Meta Model.C10_Sched Proofs.C10_SchedP.
+From TD Require Import Model.C10_Meta Model.C10_Sched Proofs.C10_MetaP Proofs.C10_SchedP Proofs.C10_TasksP Proofs.C10_GrowP.
 Open Scope string_scope.
 Open Scope list_scope.
 
-(* ---- (b) the writer pool: order independence of the task logic ---- *)
+(* ================================================================== (a) the codec *)
+
+(* load_memmap (memmap t) = t — for every structure of any depth and width (TensorDict nodes, lazy stacks, tensorclass
+   instances, NonTensorData, NonTensorStack, empty nodes; any dtype of _STRDTYPE2DTYPE, any shape with > 0 elements,
+   in memory or already memory-mapped) whose keys are distinct and are not "shape" / "device" / "_type", whose payloads
+   survive JSON (or go through pickle), saved with memmap / memmap_ / save (copy_existing as needed).
+   The loaded structure is [norm t]: t with, in every node, tensors first and sub-collections after them. *)
+Theorem C10_decode_encode : forall o t, valid_root o t = true -> bind (encode o t) decode = Ok (norm t).
+Proof. exact decode_encode_lemma. Qed.
+Print Assumptions C10_decode_encode.
+
+(* ... and norm t is t as a nested mapping: same keys at every node, same shapes, dtypes, cells, payloads, classes *)
+Theorem C10_norm_is_the_same_mapping : forall o t, valid o t = true -> same_mapping t (norm t).
+Proof. exact norm_same_mapping. Qed.
+Print Assumptions C10_norm_is_the_same_mapping.
+
+(* the unrestricted statement is false of the faithful model: /repo really loses these structures (findings D101-D107) *)
+Definition C10_decode_encode_full_statement : Prop :=
+  forall o t, like o = false -> is_leaf t = false -> bind (encode o t) decode = Ok (root_norm t).
+
+Definition f32 (sh : list nat) (cells : list Z) : td := Leaf {| lshape := sh; ldtype := F32; lcells := cells; lsrc := InMem |}.
+Definition wit_zero_size : td := Node [] [("z", f32 [0; 3] []); ("r", f32 [] [5%Z])].
+Definition wit_reserved : td := Node [2] [("shape", f32 [2] [1%Z; 2%Z]); ("a", f32 [2] [3%Z; 4%Z])].
+Definition wit_tuple : td := Node [] [("n", NData [] (PTuple [PStr "a"; PInt 1]))].
+Definition wit_set : td := Node [] [("n", NData [] (PSet [PInt 1; PInt 2]))].
+Definition wit_stack_of_lists : td := Node [2] [("s", NStack [NData [] (PList [PInt 1; PStr "u"]); NData [] (PList [PInt 2; PStr "v"])])].
+Definition wit_wide_ndata : td := Node [3] [("n", NData [3; 2] (PStr "v"))].
+Definition wit_float8 : td := Node [2] [("x", Leaf {| lshape := [2]; ldtype := F8E5M2; lcells := [0%Z; 1%Z]; lsrc := InMem |})].
+
+Theorem C10_decode_encode_refuted :
+  (* D101 a tensor with 0 elements is dropped *)
+  bind (encode default_opts wit_zero_size) decode = Ok (Node [] [("r", Leaf (loaded_leaf {| lshape := []; ldtype := F32; lcells := [5%Z]; lsrc := InMem |}))])
+  (* D102 an entry named like a metadata field is dropped *)
+  /\ bind (encode default_opts wit_reserved) decode = Ok (Node [2] [("a", Leaf (loaded_leaf {| lshape := [2]; ldtype := F32; lcells := [3%Z; 4%Z]; lsrc := InMem |}))])
+  (* D103 a tuple comes back as a list *)
+  /\ bind (encode default_opts wit_tuple) decode = Ok (Node [] [("n", NData [] (PList [PStr "a"; PInt 1]))])
+  (* D104 a set cannot be saved *)
+  /\ encode default_opts wit_set = Raised ETypeError
+  (* D105 a stack of list payloads comes back as a 2-dimensional stack *)
+  /\ bind (encode default_opts wit_stack_of_lists) decode
+     = Ok (Node [2] [("s", NStack [NStack [NData [] (PInt 1); NData [] (PStr "u")]; NStack [NData [] (PInt 2); NData [] (PStr "v")]])])
+  (* D106 a NonTensorData wider than its parent takes the parent's batch size *)
+  /\ bind (encode default_opts wit_wide_ndata) decode = Ok (Node [3] [("n", NData [3] (PStr "v"))])
+  (* D107 a dtype that is not in the string table cannot be loaded *)
+  /\ bind (encode default_opts wit_float8) decode = Raised EKeyError.
+Proof. repeat split; vm_compute; reflexivity. Qed.
+Print Assumptions C10_decode_encode_refuted.
+
+(* saving over a directory that already holds something: stale members of a longer lazy stack and a stale other.pickle
+   are picked up by the loader (findings D108, D109) *)
+Definition lazy_of (n : nat) : td := Lazy 0 (repeat (Node [2] [("a", f32 [2] [1%Z; 2%Z])]) n).
+Theorem C10_resave_refuted :
+  (exists m, bind (bind (encode default_opts (lazy_of 3)) (save_over default_opts (lazy_of 2))) decode = Ok (Lazy 0 m) /\ List.length m = 3)
+  /\ bind (bind (encode default_opts (Node [] [("n", NData [] (PObj 7))])) (save_over default_opts (Node [] [("n", NData [] (PStr "new"))]))) decode
+     = Ok (Node [] [("n", NData [] (PObj 7))]).
+Proof. split; [eexists; split|]; vm_compute; reflexivity. Qed.
+Print Assumptions C10_resave_refuted.
+
+(* ================================================================== (b) the writer pool *)
 
 (* two tasks that do not write the same key of the destination mapping nor the same file commute *)
 Theorem C10_tasks_commute : forall a b s,
@@ -14,14 +74,73 @@ Proof. exact tasks_commute_lemma. Qed.
 Print Assumptions C10_tasks_commute.
 
 (* every completion order (every permutation of the submitted tasks) ends in the same destination mapping, the same
-   files and the same directories — as mappings; from any state the calling thread left *)
+   files and the same directories — as mappings; from any state the calling thread left.  Key ORDER of a result that is
+   not built in place follows the completion order: stated, not claimed. *)
 Theorem C10_any_order : forall ts ts' s,
   independent ts = true -> Permutation ts ts' -> state_equiv (run_tasks ts s) (run_tasks ts' s).
 Proof. intros ts ts' s Hi Hp. now apply any_order_lemma. Qed.
 Print Assumptions C10_any_order.
 
-(* when the sequential run (executor=None) succeeds, the pool run in submission order is that very state *)
-Theorem C10_sequential_is_an_order : forall ts s s',
-  run_tasks_strict ts s = Ok s' -> s' = run_tasks ts s.
+(* the tasks `_memmap_` submits for a structure with distinct keys are pairwise independent, whatever the prefix *)
+Theorem C10_tasks_independent : forall o t p, keys_distinct t = true -> independent (tasks_of o t p) = true.
+Proof. exact tasks_independent_lemma. Qed.
+Print Assumptions C10_tasks_independent.
+
+(* hence: memmap / memmap_ / memmap_like with a pool give one result for all completion orders *)
+Theorem C10_memmap_any_order : forall o inplace t ts',
+  keys_distinct t = true -> Permutation (tasks_of o t []) ts' ->
+  state_equiv (run_pool o inplace t (tasks_of o t [])) (run_pool o inplace t ts').
+Proof. intros. unfold run_pool. apply any_order_lemma; auto. now apply tasks_independent_lemma. Qed.
+Print Assumptions C10_memmap_any_order.
+
+(* when the sequential run (executor=None) succeeds, it is the pool run in submission order *)
+Theorem C10_sequential_is_an_order : forall ts s s', run_tasks_strict ts s = Ok s' -> s' = run_tasks ts s.
 Proof. exact strict_ok_is_pool. Qed.
 Print Assumptions C10_sequential_is_an_order.
+
+(* "whatever the number of writer threads" is false where a task fails (finding S2): sequentially the call raises, with a
+   pool the exception is dropped and the call returns a mapping without the entry *)
+Definition wit_elsewhere : td := Node [2] [("a", Leaf {| lshape := [2]; ldtype := I64; lcells := [1%Z; 2%Z]; lsrc := MMElsewhere |})].
+Theorem C10_pool_swallows_refuted :
+  run_sequential default_opts false wit_elsewhere = Raised ERuntime
+  /\ mget path_eqb ["a"] (dest (run_pool default_opts false wit_elsewhere (tasks_of default_opts wit_elsewhere []))) = None
+  /\ mget floc_eqb ([], FMeta) (fs (run_pool default_opts false wit_elsewhere (tasks_of default_opts wit_elsewhere []))) <> None.
+Proof. repeat split; vm_compute; congruence. Qed.
+Print Assumptions C10_pool_swallows_refuted.
+
+(* ================================================================== (c) make_memmap on a saved tensordict *)
+
+(* a new tensor under a new key of the root (make_memmap / make_memmap_from_tensor / make_memmap_from_storage): the
+   directory after the read-modify-write of meta.json loads as the extended tensordict *)
+Theorem C10_make_memmap_merge : forall o bs ents k l d,
+  valid_root o (Node bs ents) = true -> leaf_ok o l = true -> reserved k = false -> smem k ents = false ->
+  encode o (Node bs ents) = Ok d ->
+  exists d', grow_at [] k l (Node bs ents) d = Ok (Node bs (ents ++ [(k, Leaf l)]), d')
+             /\ decode d' = Ok (norm (Node bs (ents ++ [(k, Leaf l)]))).
+Proof. exact make_memmap_merge_lemma. Qed.
+Print Assumptions C10_make_memmap_merge.
+
+(* ================================================================== non-vacuity *)
+Definition ex_tree : td :=
+  Node [2] [("a", Leaf {| lshape := [2; 3]; ldtype := I64; lcells := [0; 1; 2; 3; 4; 5]%Z; lsrc := InMem |});
+            ("n", Node [2] [("b", Leaf {| lshape := [2]; ldtype := BOOL; lcells := [1; 0]%Z; lsrc := MMNoFile |}); ("e", Node [2; 1] [])]);
+            ("l", Lazy 0 [Node [] [("x", f32 [3] [1; 2; 3]%Z)]; Node [] [("y", f32 [] [7%Z])]]);
+            ("c", TCls "TCA" (Node [2] [("x", f32 [2] [8; 9]%Z); ("tag", NData [2] (PStr "t"))]));
+            ("nt", NData [2] (PDict [("k", PList [PInt 1; PNone])]));
+            ("o", NData [2] (PList [PObj 3; PTuple [PInt 1]]));
+            ("s", NStack [NData [] (PStr "p"); NData [] (PStr "q")])].
+Example C10_ex_valid : valid_root default_opts ex_tree = true. Proof. reflexivity. Qed.
+Example C10_ex_roundtrip : bind (encode default_opts ex_tree) decode = Ok (norm ex_tree) /\ norm ex_tree <> ex_tree.
+Proof. split; [vm_compute; reflexivity|vm_compute; discriminate]. Qed.
+Example C10_ex_tasks : List.length (tasks_of default_opts ex_tree []) = 17 /\ keys_distinct ex_tree = true
+  /\ independent (tasks_of default_opts ex_tree []) = true.
+Proof. repeat split; vm_compute; reflexivity. Qed.
+Example C10_ex_dependent_tasks_do_not_commute :
+  let a := TWrite [] (Ok [(FMeta, CJson JNull)]) in let b := TWrite [] (Ok [(FMeta, CJson (JBool true))]) in
+  independent2 a b = false
+  /\ mget floc_eqb ([], FMeta) (fs (run_tasks [a; b] init_state)) <> mget floc_eqb ([], FMeta) (fs (run_tasks [b; a] init_state)).
+Proof. split; vm_compute; congruence. Qed.
+Example C10_ex_grow : exists d d', encode default_opts ex_tree = Ok d
+  /\ grow_at [] "new" {| lshape := [2; 2]; ldtype := I16; lcells := [1; 2; 3; 4]%Z; lsrc := MMElsewhere |} ex_tree d
+     = Ok (Node [2] (match ex_tree with Node _ es => es | _ => [] end ++ [("new", Leaf {| lshape := [2; 2]; ldtype := I16; lcells := [1; 2; 3; 4]%Z; lsrc := MMElsewhere |})]), d').
+Proof. eexists. eexists. split; vm_compute; reflexivity. Qed.
